@@ -449,6 +449,14 @@ def illformed_contexts():
         for c in ("echo `X`T", "echo \"`X`\"T", "x=`X`T", "cat <<E\n`X`T\nE\n", "echo ${y:-`X`T}", "`X`T", "echo $(echo `X`T)"):
             out.append(c.replace("X", inner).replace("T", tail))
             out.append(c.replace("X", inner).replace("T", ""))
+    # a here-document announced on the line on which its command substitution ends is never given a body, whatever follows
+    for inner in ("cat <<E", "a\ncat <<E", "cat <<-E", "cat <<'E'", "cat <<E; ((\n1))", "a | cat <<E", " ( cat <<E )", "{ cat <<E; }", "if a; then b <<E; fi",
+                  "cat <<A\nx\nA\ncat <<E", "cat <<A <<E"):
+        for c in ("echo $(X)T", "echo `X`T", "echo \"$(X)\"T", "x=$(X)T", "echo ${y:-$(X)}T", "echo $(echo $(X))T", "cat <<Q\n$(X)\nQ\nT", "( echo $(X) )T", "echo $(X) |\nb T"):
+            if "`" in c and "((" in inner:
+                continue
+            for tail in ("\n", "\nbody\nE\n", " z\nE\n"):
+                out.append(c.replace("X", inner).replace("T", tail))
     for x in exp:
         for c in wctx + hctx:
             if "`" in x and "`" in c:
